@@ -37,6 +37,17 @@ func extras(prop string) (map[string]any, []string) {
 			"verifier goroutines that kyber leaves parked after an aborted session are counted (probe), not asserted",
 			"sampling within <=4 Or-branches, <=4 And-terms, <=3 terms per Rep, <=5 clique participants",
 		}
+	case "C03":
+		return nil, []string{
+			"decisive scope: the stream clause (MarshalTo/UnmarshalFrom, hex helpers, suite.Read/Write under every legal chunking); the pure input clauses are re-checked on the values that flow",
+			"a zero-length read with a nil error is generated at most three times per session (legal for io.Reader)",
+		}
+	case "C04":
+		return nil, []string{
+			"independent membership models are calibrated on honest points first; a model that rejects an honest point is dropped and reported as probe membership-model-uncalibrated",
+			"curve constants (p, d, b, group orders) are the public parameters of the curves",
+			"for vss Deal.Unmarshal a strict prefix may be a well-formed protobuf message: only totality is asserted there",
+		}
 	case "C10":
 		return nil, []string{
 			"sampling within n<=6, t in 2..n, <=3000 events per run; both VSS variants on Ed25519",
